@@ -11,7 +11,7 @@ Full statement of the property that is *not* provable for this code (kept here a
       lazyEval K seeds dose ch ent items = .ok (eager K seeds dose 0 items)                      -- (lazy = eager whatever the chunking)
 
 It is false: an eager call draws one stream over the whole array, a lazy call one stream per block
-(`lazy_eq_eager_counterexample`).  Since fix 05 (per-block `SeedSequence(seed, spawn_key=block_id)`) the blocks no longer
+(`lazy_eq_eager_counterexample`).  Since fix 9150f392 (per-block `SeedSequence(seed, spawn_key=block_id)`) the blocks no longer
 repeat each other's noise: `blocks_get_distinct_streams`.  What is proved:
 reproducibility of eager and lazy runs for a fixed chunking, validity of the sampler's input (rates ≥ 0, = dose × signal)
 and of its output (counts ≥ 0 under the sampler's contract), shapes, lazy = eager for a single block, and that no
@@ -23,6 +23,7 @@ import AbtemVerif.Lib.Partition
 import Mathlib.Tactic.Ring
 import Mathlib.Tactic.Linarith
 import Mathlib.Data.Rat.Floor
+import Mathlib.Logic.Equiv.List
 
 namespace AbtemVerif.Props.C31
 open AbtemVerif.Noise AbtemVerif.Partition
@@ -166,7 +167,7 @@ theorem blockKey_injective (ids₁ ids₂ : List Nat) (hlen : ids₁.length = id
   · subst h; simp at h1
   · exact h
 
-/-- **Blocks get distinct streams** (what fix 05 establishes; before it every block re-derived the *same* `RandomState` seed and
+/-- **Blocks get distinct streams** (what fix 9150f392 establishes; before it every block re-derived the *same* `RandomState` seed and
 all blocks with equal signal received identical noise).  RNG hypothesis: `SeedSequence` spawning is collision-free, i.e. the
 derived seed is an injective function of the spawn key — statistical independence of the spawned streams is numpy's contract,
 validated numerically, not proved. -/
@@ -175,6 +176,14 @@ theorem blocks_get_distinct_streams (K : Kernels) (hK : ∀ s, Function.Injectiv
     K.derive (some s) (blockKey ids₁) e ≠ K.derive (some s) (blockKey ids₂) e' := by
   intro h
   exact hne (blockKey_injective ids₁ ids₂ hlen (hK s h))
+
+/-- non-vacuity of the hypothesis of `blocks_get_distinct_streams`: a kernel whose seeded derivation is injective in the spawn
+key exists (here: a Gödel numbering of the key).  numpy's `SeedSequence` maps keys into a finite range and the tagging kernel
+`tagK` is a small hash — neither is injective; for them the hypothesis is the *contract* "spawned streams do not collide",
+which is assumed (RNG), not proved. -/
+example : ∃ K : Kernels, ∀ s, Function.Injective (K.deriveSeeded s) :=
+  ⟨⟨fun _ key => (Encodable.encode key : Int), fun e => e, fun _ _ => []⟩,
+   fun _ a b h => Encodable.encode_injective (Int.ofNat_inj.mp h)⟩
 
 /-- The first block of a lazy array (all block indices 0) and an eager call use the seed as it is, so that a lazy array
 with a single block reproduces the eager result and eager results are the same as before the fix. -/
@@ -224,12 +233,12 @@ theorem lazy_never_fails (K : Kernels) (seeds : Seeds) (dose : Dose) (ch : Chunk
 
 /-- Before fix 7971a31d the constructor rejected exactly the proper blocks of the sample axis: a block is accepted iff it is the
 whole distribution.  (Hence lazy `poisson_noise(samples > 1)` raised AssertionError as soon as "auto" chunking split that axis.) -/
-theorem prefix_rebuild_accepts_iff_whole (samples : Nat) (vs : List Int) :
+lemma prefix_rebuild_accepts_iff_whole (samples : Nat) (vs : List Int) :
     (∃ b, rebuildPreFix samples (.dist vs) = .ok b) ↔ vs.length = samples := by
   by_cases h : vs.length = samples <;> simp [rebuildPreFix, h]
 
 /-- … whereas the repaired constructor accepts every block, and returns it unchanged -/
-theorem rebuild_accepts_every_block (samples : Nat) (vs : List Int) : rebuild samples (.dist vs) = .ok (.dist vs) := rfl
+lemma rebuild_accepts_every_block (samples : Nat) (vs : List Int) : rebuild samples (.dist vs) = .ok (.dist vs) := rfl
 
 /-- **Valid sampler input**: every Poisson rate handed to the sampler is non-negative (negative intensities are clipped),
 so `RandomState.poisson` never sees an invalid rate. -/
@@ -300,6 +309,36 @@ theorem calcBlock_shape (K : Kernels) (seeds : Seeds) (dose : Dose) (key : List 
   simp only [List.mem_map, List.mem_range] at hc
   obtain ⟨i, _, rfl⟩ := hc
   simp
+
+/-! ### measurement classes -/
+
+/-- Every measurement class except `IndexedDiffractionPatterns` supports noise, eagerly and lazily under every chunking,
+whatever its number of base axes (0 for `MeasurementsEnsemble`, 1 for line profiles, 2 for images and patterns). -/
+theorem noise_supported_on_rebuildable_classes (K : Kernels) (cls : MeasClass) (h : cls ≠ .indexedDiffractionPatterns)
+    (seeds : Seeds) (dose : Dose) (cd cs ci : List Nat) (e : Nat) (ent : Nat → Nat) (items : List (List Rat)) :
+    (∃ a, noiseOn K cls seeds dose e items = .ok a) ∧ (∃ a, lazyNoiseOn K cls seeds dose cd cs ci ent items = .ok a) := by
+  have hr : cls.rebuildable = true := by cases cls <;> simp_all [MeasClass.rebuildable]
+  refine ⟨⟨eager K seeds dose e items, by simp [noiseOn, hr]⟩, ?_⟩
+  simp only [lazyNoiseOn, hr, if_true]
+  exact lazy_never_fails K seeds dose _ ent items
+
+/-- … and a single block reproduces the eager result for each of them (base dims 0, 1 or 2). -/
+theorem single_block_lazy_eq_eager_all_classes (K : Kernels) (cls : MeasClass) (h : cls ≠ .indexedDiffractionPatterns)
+    (seeds : Seeds) (dose : Dose) (ent : Nat → Nat) (items : List (List Rat)) :
+    lazyNoiseOn K cls seeds dose [dose.values.length] [seeds.count] [items.length] ent items
+      = noiseOn K cls seeds dose (ent 0) items := by
+  have hr : cls.rebuildable = true := by cases cls <;> simp_all [MeasClass.rebuildable]
+  simp only [lazyNoiseOn, noiseOn, hr, if_true]
+  exact single_block_lazy_eq_eager K seeds dose ent items cls.baseDims
+
+/-- KNOWN FINDING witness: noise (like every other transform) cannot be applied to `IndexedDiffractionPatterns` — the result
+cannot be rebuilt from array and metadata, eager or lazy.  (Provable only while `MeasClass.rebuildable` says so; the class table is
+compared with the real classes on every run.) -/
+theorem indexed_diffraction_patterns_noise_unsupported (K : Kernels) (seeds : Seeds) (dose : Dose) (cd cs ci : List Nat) (e : Nat)
+    (ent : Nat → Nat) (items : List (List Rat)) :
+    noiseOn K .indexedDiffractionPatterns seeds dose e items = .error "type_error" ∧
+    lazyNoiseOn K .indexedDiffractionPatterns seeds dose cd cs ci ent items = .error "type_error" := by
+  simp [noiseOn, lazyNoiseOn, MeasClass.rebuildable]
 
 /-! ### non-vacuity -/
 example : Seeded (.scalar (some 7)) ∧ Seeded (.dist [5, 6, 7]) ∧ ¬ Seeded (.scalar none) := by
